@@ -139,6 +139,33 @@ def gen_supburst(rng):
     return {"actors": actors, "msgs": msgs, "ops": ops}
 
 
+def gen_many_children(rng):
+    """A supervisor with many (17-22) children: a long run of supervision events is queued while a
+    user message (and possibly a stop) waits - supervision must still be served first, however long
+    the run is."""
+    k = rng.choice([17, 18, 20, 22])
+    trivial = ([], ("ok",))
+    actors = [{"pre": trivial, "ps": trivial, "stop": ([("t",)], ("ok",)), "sup": ([("g", 1)], ("ok",)), "link": None}]
+    for i in range(1, k + 1):
+        actors.append({"pre": trivial, "ps": trivial, "stop": trivial, "sup": None, "link": 0})
+    msgs = {1: ([("t",)], ("ok",)), 2: trivial, 3: trivial, 4: trivial}
+    ops = [("spawn", 0), ("settle",)]
+    for i in range(1, k + 1):
+        # one child per settle window: the order of the queued ActorStarted events is determined
+        ops.append(("spawn", i))
+        ops.append(("settle",))
+    ops.append(("send", 0, 1))
+    if rng.random() < 0.5:
+        for i in rng.sample(range(1, k + 1), rng.choice([1, 3])):
+            ops.append(rng.choice([("kill", i), ("stop", i, None)]))
+        ops.append(("settle",))
+    if rng.random() < 0.3:
+        ops.append(("stop", 0, None))
+    ops.append(("open", 1))
+    ops.append(("settle",))
+    return {"actors": actors, "msgs": msgs, "ops": ops}
+
+
 def gen_abort_in_post_stop(rng):
     """A supervisor with a custom supervision handler that does not stop itself, and children whose
     post_stop parks at a gate: each child is stopped / drained (now suspended inside post_stop, status
@@ -582,7 +609,9 @@ def run_loop_check(chk, oracle_fn, focus, what, accept=lambda o: o == "true", co
                 (scs if m == "send" else lscs[m]).append(c)
     ncorpus = len(scs) + sum(len(v) for v in lscs.values())
     for k in range(n_cases):
-        if k % 8 == 7:
+        if k % 40 == 39:
+            scs.append(gen_many_children(chk.rng))
+        elif k % 8 == 7:
             scs.append(gen_abort_in_post_stop(chk.rng))
         elif k % 5 == 4:
             scs.append(gen_supburst(chk.rng))
